@@ -47,7 +47,7 @@ PROPS = {
         rule="random insert/remove/select/count histories on the real PriorityNonceMempool[int64] with mock sdk.Tx values whose single message type URL is drawn from the five priority classes "
              "(so NewDefaultTxPriority is under test), unique (sender, seq) among pending, priority ties across senders, repeated selects; distinct = distinct canonical history; non-trivial = a select over >= 2 pending txs",
         trusted_base=["huandu/skiplist is abstracted as a list kept sorted by the code's comparator (validated by correspondence)"],
-        assumptions=["(sender, sequence) unique among pending transactions and priorities above MinInt64 (the property's own precondition `Admissible`)"],
+        assumptions=["(sender, sequence) unique among pending (Admissible); for 'every pending transaction is yielded' additionally no pending priority equals MinInt64 (NoMin, proved necessary: select_complete_false_at_minvalue); CheckTx priority < MaxInt64-3 for the class clause (proved necessary: classes_false_at_bound); both hold in the wired application because TxFeeSkipper returns 42 for every transaction (theorem mempool_app; the function is exercised by the harness, the wiring TxFeeChecker: TxFeeSkipper in app/app.go is read from the source)"],
     ),
     "C02": dict(
         lean_modules=["PalomaModel.Props.C02"], gen=["Consts.lean"],
